@@ -40,6 +40,8 @@ struct Run {
     /// 0 general, 1 affinity (hrw / maglev, many keyed selections, rare policy changes),
     /// 2 load (leastLoaded / p2c, many connects and closes)
     profile: u64,
+    /// the cluster the step in progress works on (for the report of a panic)
+    cur: String,
     ev: BTreeMap<String, Vec<Value>>,
     stats: BTreeMap<String, u64>,
 }
@@ -77,6 +79,7 @@ impl Run {
     }
 
     fn step(&mut self, c: &str) {
+        self.cur = c.to_string();
         let mut r = self.rng.below(100);
         // the special profiles redirect part of the draws to the operations they are about
         if self.profile == 1 && self.rng.chance(1, 2) {
@@ -206,6 +209,7 @@ fn main() {
         let profile = rng.below(4) % 3; // 0 twice as often
         let mut r = Run {
             profile,
+            cur: "c1".to_string(),
             w: World::new(addr_table(4, variant, unreachable)),
             th_up: 1 + rng.below(3) as u32,
             th_down: 1 + rng.below(3) as u32,
@@ -216,6 +220,7 @@ fn main() {
         };
         let outcome = catch_unwind(AssertUnwindSafe(|| {
             for c in ["c1", "c2"] {
+                r.cur = c.to_string();
                 if r.profile != 0 || r.rng.chance(4, 5) {
                     let p = r.pick_policy();
                     let m = if r.rng.chance(1, 2) { "conns" } else { "reqs" };
@@ -233,11 +238,14 @@ fn main() {
         }));
         if let Err(p) = outcome {
             let msg = vh::util::panic_message(p);
-            let hist: BTreeMap<String, Vec<Value>> = r.ev.iter().map(|(c, v)| {
-                (c.clone(), v.iter().map(|e| { let mut e = e.clone(); e.as_object_mut().unwrap().remove("post"); e }).collect())
-            }).collect();
-            vh::util::emit(&json!({"kind":"violation","class":"panic","detail":{"run":run,"seed":seed,"panic":msg,
-                "note":"sozu panicked during the step after the last recorded event of one of the clusters","history":hist}}));
+            // replay file: the recorded history of the cluster the panicking step worked on, then the panic itself
+            // (Trace_Backends.tla explains no `Panic` event, so the file is rejected exactly there)
+            let mut events = vec![json!({"ev":"reset","run":run,"cl":r.cur})];
+            events.extend(r.ev.get(&r.cur).cloned().unwrap_or_default());
+            events.push(json!({"ev":"Panic","panic":msg}));
+            let labels: Vec<Value> = events.iter().rev().take(12).rev().map(|e| { let mut e = e.clone(); e.as_object_mut().unwrap().remove("post"); e }).collect();
+            vh::util::emit(&json!({"kind":"violation","class":"panic","detail":{"run":run,"seed":seed,"cluster":r.cur,"panic":msg,
+                "note":"sozu panicked during the step after the last recorded event","last_events":labels},"events":events}));
         }
         for (c, evs) in &r.ev {
             writeln!(out, "{}", json!({"ev":"reset","run":run,"cl":c})).unwrap();
